@@ -156,6 +156,19 @@ def run(ctx):
         exprs.append("chk_explained [%s] [%s]" % ("; ".join(cdel(d) for d in dels[:ne]), "; ".join(cdel(d) for d in dels[ne:])))
         m["_dels"] = dels
         m["_ne"] = ne
+    # the schedule of (repaired) finding K10 on the real manager: a user reset suspended in its RUNNING_SPA_DISCONNECTED handler while
+    # the pump's own reset completes and the pump discovers again - afterwards the pump must be on its way again, not parked in IDLE
+    from harness import lifecycle_i
+    from props.C08 import W_K10
+    enter, start, out, alive = lifecycle_i.run_schedule(True, W_K10 + [("Pump",)] * 2)
+    snap, occ = out[-1][2], out[-1][4]
+    ctx.count("k10_schedule_replayed")
+    ctx.case(("k10_schedule",), nontrivial=True)
+    if not alive:
+        ctx.fail("heal:pump_dead", "the sequence pump task ended during the schedule of finding K10", {"schedule": [x[0] for x in out]})
+    elif snap[0] == "IDLE" and snap[3] and not any(occ):
+        ctx.fail("heal:stuck:IDLE", "after a user reset that was suspended while the pump's own reset completed and the pump discovered again, the manager sits in IDLE with "
+                 "descriptors present and the pump polls without doing anything: it never reconnects", {"schedule": [x[0] for x in out], "final": snap})
     res = ctx.coq_cases("heal", HEADER, exprs, shard=2, timeout=1500)
     meta_acc = [m for m in meta if "_dels" in m]
     bad = [i for i, x in enumerate(res) if x is not True]
